@@ -87,7 +87,8 @@ class HistoryGen(object):
         use_poison = with_faults and self.poisons and rng.random() < 0.5
         fault_kinds = rng.sample(list(FaultPlan.KINDS), rng.randint(1, 4)) if (
             with_faults and rng.random() < 0.6) else []
-        entries = rng.choice([["cli"], ["cli", "args"], ["cli", "args", "api"], ["api", "cli"]])
+        entries = rng.choice([["cli"], ["cli", "args"], ["cli", "args", "api"], ["api", "cli"],
+                              ["args_reuse"], ["args_reuse", "cli"]])
         length = rng.randint(2, 8)
         ops = []
         prev = None
